@@ -261,6 +261,12 @@ pub fn special_asts() -> Vec<Ast> {
         Ast::Union(vec![Ast::Concat(Box::new(Ast::Full), b()), Ast::Concat(a(), b()), Ast::Eps]),
         Ast::Concat(Box::new(Ast::Opt(a())), Box::new(Ast::Full)),
         Ast::Diff(Box::new(Ast::Full), Box::new(Ast::Star(a()))),
+        // two terms each detectably included in the other (intersections are not pruned by subsumption)
+        Ast::Str(vec![A, A + 1]),
+        Ast::Inter(vec![Ast::Str(vec![A, A + 1]), Ast::Concat(Box::new(Ast::Full), b())]),
+        Ast::Inter(vec![Ast::Concat(a(), Box::new(Ast::Full)), Ast::Concat(Box::new(Ast::Full), b())]),
+        Ast::Concat(a(), Box::new(Ast::Concat(Box::new(Ast::Plus(b())), Box::new(Ast::Range(A + 2, A + 2))))),
+        Ast::Str(vec![A, A + 2]),
     ]
 }
 
